@@ -468,9 +468,13 @@ func (b *Broker) process(c *Conn, s *bconn, p *Packet) {
 	case SUBSCRIBE:
 		codes := make([]byte, len(p.Filters))
 		for i, f := range p.Filters {
-			b.Subs[f] = p.QoSs[i]
 			codes[i] = p.QoSs[i]
-			if b.GrantMax != nil && (*b.GrantMax == 0x80 || codes[i] > *b.GrantMax) {
+			if b.GrantMax != nil && *b.GrantMax == 0x80 {
+				codes[i] = 0x80 // refused: nothing is subscribed
+				continue
+			}
+			b.Subs[f] = p.QoSs[i]
+			if b.GrantMax != nil && codes[i] > *b.GrantMax {
 				codes[i] = *b.GrantMax
 			}
 		}
